@@ -359,6 +359,26 @@ func corpusScripts(c *Check, modules []string, everyDefault int) []string {
 	return out
 }
 
+// programs whose last statement - of the main body and of a function body - is a construct which ends in a join
+// point: what follows the last jump target is the end of the body
+func tailFamily() []string {
+	constructs := []string{
+		`if ( C1 ) { t(1); }`, `if ( C1 ) { return true; }`, `if ( C1 ) { t(1); } else { t(2); }`, `if ( C1 ) { return 1; } else { return 2; }`,
+		`if ( C1 ) { t(1); } else if ( C2 ) { t(2); }`, `while ( C1 ) { t(1); C1 = false; }`, `for ( i = 0; i < 2; i++ ) { t(i); }`,
+		`foreach x in [1, 2] { t(x); }`, `foreach k, x in "ab" { t(k); }`, `foreach k, v in {"a": 1} { t(v); }`, `foreach x in 1..3 { if ( x == 2 ) { return x; } }`,
+		`switch ( N ) { case 1 { t(1); } case 2, 3 { t(2); } default { t(3); } }`, `switch ( N ) { case 1 { return 1; } }`, `switch ( N ) { default { t(3); } case 1 { t(1); } }`,
+		`C1 ? t(1) : t(2);`, `x = C1 ? 1 : 9;`, `if ( C1 ) { if ( C2 ) { t(1); } }`, `while ( C1 ) { if ( C2 ) { t(1); } C1 = false; }`,
+		`foreach x in [1] { switch ( x ) { case 1 { t(1); } } }`, `if ( C1 && C2 ) { t(1); } `, `if ( true ) { t(1); }`, `if ( false ) { t(1); }`, `if ( 1 == 1 ) { t(1); } else { t(2); }`,
+	}
+	// hash literals which write a key more than once: the operand count is the number of pairs written
+	out := []string{`return {"a": 1, "a": 1};`, `return {"a": 1, "a": 2, "b": 3};`, `x = [10, {"k": 5, "k": 5}]; return x;`, `return {1: 1, 1: 2, "1": 3, 1.0: 4};`,
+		`function f() { return {"a": 1, "a": 1}; } return f();`, `foreach k, v in {"a": 1, "a": 1, "a": 1} { t(k); } return 1;`, `return {N: 1, N: 2};`, `return len({"a": 1, "a": 1}) + 1;`}
+	for _, cst := range constructs {
+		out = append(out, cst, "x = 1; t(0); "+cst, "function f(N) { "+cst+" } f(1); "+cst, "function g() { t(5); "+cst+" } return g();")
+	}
+	return out
+}
+
 // programs around the 16-bit operand limits and with every low operand byte at the end of a function
 func sizeFamily(tier string) []string {
 	var out []string
@@ -414,7 +434,7 @@ func sizeFamily(tier string) []string {
 }
 
 func checkC18(c *Check) {
-	c.rule = "every accepted script of the corpora MC_Flow, MC_Opt, MC_Scope, MC_History (every 8th distinct script, the small corpora whole; thorough: of the thorough-tier corpora, plus MC_Alias, MC_Cont, MC_Truth and every 400th script of MC_Expr) and a size family (integer literals and constant pools around the 8/16-bit boundaries, calls/arrays/hashes/literals whose operand low byte takes the value of every opcode as the last instruction of a function, bodies of 65.5k bytes in front of forward and backward jumps) is prepared optimised and unoptimised; the programs as the VM will run them (verif accessors) are explored by TLC on ALL control-flow paths (MC_Verify); every report is re-established by an independent decoder/abstract interpreter in Go before it counts; non-trivial = a prepared program with at least one jump or call; distinct = distinct (script, mode)"
+	c.rule = "every accepted script of the corpora MC_Flow, MC_Opt, MC_Scope, MC_History (every 8th distinct script, the small corpora whole; thorough: of the thorough-tier corpora, plus MC_Alias, MC_Cont, MC_Truth and every 400th script of MC_Expr) and a size family (integer literals and constant pools around the 8/16-bit boundaries, calls/arrays/hashes/literals whose operand low byte takes the value of every opcode as the last instruction of a function, bodies of 65.5k bytes in front of forward and backward jumps) and a tail family (23 constructs as the LAST statement of the main body and of function bodies, where the last jump target is the end of the body; 8 hash literals writing a key more than once) is prepared optimised and unoptimised; the programs as the VM will run them (verif accessors) are explored by TLC on ALL control-flow paths (MC_Verify); every report is re-established by an independent decoder/abstract interpreter in Go before it counts; non-trivial = a prepared program with at least one jump or call; distinct = distinct (script, mode)"
 	c.assumptions = []string{"calls are taken to push one value (the statement's proviso)", "abstract stack heights saturate at 12", "the verif accessors return the byte slices the VM executes"}
 	// the model compiler (EFCompiler): well-formed on every enumerated program (TLC), and byte-for-byte
 	// what the real compiler emits (drift is reported, it is not a verdict)
@@ -456,6 +476,7 @@ func checkC18(c *Check) {
 	scripts := corpusScripts(c, mods, every)
 	// the witnesses of the recorded finding "a value-less construct used as an operand"
 	scripts = append(scripts, `x = y++; return x;`, `t(a = 1); return 2;`, `r = 1 + if ( true ) { } ; return r;`)
+	scripts = append(scripts, tailFamily()...)
 	if os.Getenv("VERIF_C18_NOSIZE") == "" {
 		scripts = append(scripts, sizeFamily(c.Tier)...)
 	}
